@@ -6,6 +6,15 @@ from .errors import JSSyntaxError
 from .values import normalize_number
 
 
+# ECMAScript WhiteSpace (TAB VT FF SP NBSP ZWNBSP and the Unicode space
+# separators) and LineTerminator code points
+_WHITESPACE = (
+    "\t\v\f \u00a0\ufeff\u1680\u2000\u2001\u2002\u2003\u2004\u2005\u2006"
+    "\u2007\u2008\u2009\u200a\u202f\u205f\u3000"
+)
+_LINE_TERMINATORS = "\n\r\u2028\u2029"
+
+
 class Lexer:
     """Tokenizes JavaScript source code."""
 
@@ -48,15 +57,15 @@ class Lexer:
             ch = self._current()
 
             # Whitespace
-            if ch in " \t\r\n":
+            if ch in _WHITESPACE or ch in _LINE_TERMINATORS:
                 self._advance()
                 continue
 
-            # Single-line comment
+            # Single-line comment: up to the next line terminator
             if ch == "/" and self._peek() == "/":
                 self._advance()  # /
                 self._advance()  # /
-                while self._current() and self._current() != "\n":
+                while self._current() and self._current() not in _LINE_TERMINATORS:
                     self._advance()
                 continue
 
